@@ -498,7 +498,8 @@ Definition close_pc (p : pc) : pc * outcome * effect :=
 
 (* ---------- CreateOffer ---------- *)
 
-(* "update the greater mid if the remote description provides a greater one" *)
+(* "update the greater mid if a remote description (current or pending) or an
+   existing transceiver provides a greater one": one remote description *)
 Definition greater_from_remote (g : Z) (l : list sec) : Z :=
   fold_left (fun g s =>
                let m := mid_value s in
@@ -508,7 +509,9 @@ Definition greater_from_remote (g : Z) (l : list sec) : Z :=
                     | None => g
                     end) l g.
 
-(* the loop over currentTransceivers: keep numeric mids in view, number the rest *)
+(* second pass over currentTransceivers: the transceivers without mid are
+   numbered greaterMid+1, ... (the mids already set were taken into account by
+   the first pass, greater_from_tcvs below) *)
 Fixpoint assign_mids (g : Z) (l : list tcv) : Z * list tcv :=
   match l with
   | [] => (g, [])
@@ -518,13 +521,16 @@ Fixpoint assign_mids (g : Z) (l : list tcv) : Z * list tcv :=
         let (g'', r') := assign_mids g' r in
         (g'', tcv_with_mid t (itoaZ g') :: r')
       else
-        let g' := match atoiZ (t_mid t) with
-                  | Some n => if Z.gtb n g then n else g
-                  | None => g
-                  end in
-        let (g'', r') := assign_mids g' r in
+        let (g'', r') := assign_mids g r in
         (g'', t :: r')
   end.
+
+(* first pass of the loop over currentTransceivers: the numeric mids already set *)
+Definition greater_from_tcvs (g : Z) (l : list tcv) : Z :=
+  fold_left (fun g t => match atoiZ (t_mid t) with
+                        | Some n => if Z.gtb n g then n else g
+                        | None => g
+                        end) l g.
 
 Definition mark_negotiated (t : tcv) : tcv :=
   tcv_with_sender t (option_map sender_mark_negotiated (t_sender t)).
@@ -602,6 +608,11 @@ Definition create_offer (p : pc) : pc * outcome * effect :=
               | Some r => greater_from_remote (p_greater_mid p) (d_secs r)
               | None => p_greater_mid p
               end in
+    let g0 := match p_pend_remote p with
+              | Some r => greater_from_remote g0 (d_secs r)
+              | None => g0
+              end in
+    let g0 := greater_from_tcvs g0 (p_tcvs p) in
     let (g, l) := assign_mids g0 (p_tcvs p) in
     let built := match p_cur_remote p with
                  | None => Ok (unmatched_sections p l)
